@@ -70,7 +70,7 @@ def group_source(g, k):
     # `experiments` is any Iterable[ExperimentInstance]: a list, a tuple, or a one-shot iterable (generator, iter(...), map)
     lst = "[%s]" % ", ".join(insts)
     container = [lst, "tuple(%s)" % lst, "(e for e in %s)" % lst, "iter(%s)" % lst, lst, "map(lambda e: e, %s)" % lst][(k // 2) % 6]
-    args = ["name=%r" % g["name"], "run=%r" % g["run"], "experiments=%s" % container]
+    args = ["name=%r" % g["name"], "run=%r" % (g["run"] + RUN_SUFFIX[k % len(RUN_SUFFIX)]), "experiments=%s" % container]
     if g["chain"] or k % 2:
         args.append("chain_experiments=%r" % bool(g["chain"]))
     if g["deps"] or k % 3 == 1:
@@ -78,12 +78,17 @@ def group_source(g, k):
     return src + "run_experiment_group(%s)\n" % ", ".join(args)
 
 
-def explicit_tasks(expansion):
+# the command string is passed on VERBATIM (surrounding blanks included): the expansion runs `run + " " + args...`
+RUN_SUFFIX = ["", "", " ", "", "  "]
+
+
+def explicit_tasks(expansion, k=0):
     tasks = [{"pkg": "", "name": "d1", "kind": "run_command", "deps": [], "run": "true"},
              {"pkg": "", "name": "d2", "kind": "run_command", "deps": [], "run": "true"}]
     for d in expansion:
         if d["ctor"] == "run_experiment":
-            tasks.append({"pkg": "", "name": d["name"], "kind": "run_experiment", "deps": list(d["deps"]), "run": d["run"],
+            tasks.append({"pkg": "", "name": d["name"], "kind": "run_experiment", "deps": list(d["deps"]),
+                          "run": d["run"] + RUN_SUFFIX[k % len(RUN_SUFFIX)],
                           "par": bool(d["par"]), "args": RawPy("('x', 1)") if d["args"] == ["__BAD__"] else [conc(a) for a in d["args"]],
                           "options": RawPy("[('threads', 1)]") if d["opts"] == [["__BAD__", "x"]] else {o[0]: conc(o[1]) for o in d["opts"]},
                           "force_deps": True})
@@ -117,7 +122,7 @@ def pair_worker(job):
     inst, k = job
     d = tempfile.mkdtemp(prefix="cvc19_", dir=C.scratch_root())
     try:
-        tasks = explicit_tasks(inst["expansion"])
+        tasks = explicit_tasks(inst["expansion"], k)
         projE = {"config": "disable_git = true\n", "tasks": tasks}
         rootE, rootG = os.path.join(d, "e"), os.path.join(d, "g")
         P.write_project(rootE, projE)
